@@ -209,6 +209,14 @@ impl<'s> Scheduler<'s> {
             co.add_raw_listener(listener);
         }
         let co_id = co.id;
+        #[cfg(open_coroutine_verif)]
+        crate::common::verif::emit(|| {
+            format!(
+                r#""ev":"co_submit","id":{co_id},"name":{:?},"sched":{:?}"#,
+                co.name(),
+                self.name()
+            )
+        });
         self.ready.push(co);
         Ok(co_id)
     }
@@ -293,6 +301,14 @@ impl<'s> Scheduler<'s> {
             if let Some(mut coroutine) = self.ready.pop() {
                 let co_id = coroutine.id;
                 if CANCEL_COROUTINES.contains(&co_id) {
+                    #[cfg(open_coroutine_verif)]
+                    crate::common::verif::emit(|| {
+                        format!(
+                            r#""ev":"cancel_drop","id":{co_id},"name":{:?},"sched":{:?}"#,
+                            coroutine.name(),
+                            self.name()
+                        )
+                    });
                     _ = CANCEL_COROUTINES.remove(&co_id);
                     warn!("Cancel coroutine:{} successfully !", co_id);
                     continue;
